@@ -32,6 +32,9 @@ peg::parser! {
 
         // Match balanced braces and capture everything including the braces
         // Braces inside JSON string literals do not count: a string is skipped as a whole.
+        // Memoised: without it every unbalanced "{" is tried as a nested block and as a plain
+        // character, which doubles the work per brace (a 150-byte payload of "{{{{..." ran for minutes).
+        #[cache]
         rule balanced_braces() -> &'input str
             = json:$( "{" (json_string() / balanced_braces() / (!"}" [_]))* "}" ) {
                 json
